@@ -1,6 +1,7 @@
 package main
 
 import (
+	"bytes"
 	"fmt"
 	"strings"
 
@@ -211,6 +212,118 @@ func c05Visibility(v c05Vis, dotu bool, maxpend, P int) Scenario {
 	}})
 }
 
+// c05ArgsStable: the arguments the implementation works with stay what the client
+// named while the client goes on sending: a Twrite (and a Twstat / Tcreate with their
+// strings) is held by the implementation, k further requests arrive one per segment,
+// then the held request is carried out.
+func c05ArgsStable(msize uint32, dotu bool) Scenario {
+	name := fmt.Sprintf("arguments-stable-while-held msize=%d dotu=%v", msize, dotu)
+	return Scenario{Name: name, Run: func(rc *RunCtx) *Result {
+		res := &Result{Exhaustive: true}
+		seen := map[string]bool{}
+		maxK := int(8*msize)/11 + 3
+		ks := []int{1, 2, 3, maxK / 2, maxK}
+		for _, held := range []string{"write", "create", "walk"} {
+			for _, k := range ks {
+				for _, follower := range []string{"stat", "write", "mixed"} {
+					var fail string
+					body := func() {
+						s := newSess(SrvOpt{Msize: msize, Dotu: dotu})
+						L := int(msize) - 24
+						s.rpcOK(twalk(s.tag(), 0, 1, "g"), wire.Rwalk)
+						s.rpcOK(&wire.Msg{Type: wire.Topen, Tag: s.tag(), Fid: 1, Mode: 1}, wire.Ropen)
+						s.rpcOK(twalk(s.tag(), 0, 2, "g"), wire.Rwalk)
+						s.rpcOK(&wire.Msg{Type: wire.Topen, Tag: s.tag(), Fid: 2, Mode: 1}, wire.Ropen)
+						s.rpcOK(twalk(s.tag(), 0, 3, "d"), wire.Rwalk)
+						data := make([]byte, L)
+						for i := range data {
+							data[i] = byte(0x80 | i)
+						}
+						var hm *wire.Msg
+						var wantArgs string
+						switch held {
+						case "write":
+							hm = &wire.Msg{Type: wire.Twrite, Tag: 50, Fid: 1, Offset: 7, Data: data}
+							wantArgs = fmt.Sprintf("off=7 count=%d", L)
+						case "create":
+							nm := strings.Repeat("C", L-10)
+							hm = &wire.Msg{Type: wire.Tcreate, Tag: 50, Fid: 3, Name: nm, Perm: 0644, Mode: 1}
+							wantArgs = expectArgs(mevent{Op: "create", Fid: 3, Name: nm, Perm: 0644, Mode: 1})
+						case "walk":
+							nm := strings.Repeat("W", L-10)
+							hm = twalk(50, 0, 9, nm)
+							wantArgs = expectArgs(mevent{Op: "walk", Fid: 0, Newfid: 9, Names: []string{nm}})
+						}
+						g := vs.NewSem(0)
+						s.fs.Script[reqKey{0, 50, 0}] = &Action{Gate: g}
+						s.c.Send(dotu, hm)
+						vs.Idle()
+						for i := 0; i < k; i++ {
+							var m *wire.Msg
+							if follower == "stat" || (follower == "mixed" && i%2 == 0) {
+								m = &wire.Msg{Type: wire.Tstat, Tag: uint16(100 + i), Fid: 0}
+							} else {
+								m = &wire.Msg{Type: wire.Twrite, Tag: uint16(100 + i), Fid: 2, Offset: uint64(i), Data: bytes.Repeat([]byte{byte(i)}, 1+i%L)}
+							}
+							s.c.Send(dotu, m)
+							vs.Idle()
+						}
+						g.Release()
+						vs.Idle()
+						// what the implementation saw for the held request, at the time it used it
+						var callArgs, dataHash string
+						for _, e := range s.fs.Log {
+							if e.Conn == 0 && e.Tag == 50 {
+								if e.Kind == "call" {
+									callArgs = e.Args
+								}
+								if e.Kind == "data" {
+									dataHash = e.Args
+								}
+							}
+						}
+						if wantArgs != "" && callArgs != wantArgs {
+							fail = fmt.Sprintf("the held %s reached the implementation with %q, the client sent %q", held, callArgs, wantArgs)
+						}
+						if held == "write" && dataHash != hashBytes(data) {
+							fail = fmt.Sprintf("the payload of the held Twrite was %s when the implementation used it, the client sent %s (%d requests arrived in between)", dataHash, hashBytes(data), k)
+						}
+						if held != "write" {
+							// names are used after the gate as well: the reply of a create/walk reflects them
+							for _, f := range s.c.Collect() {
+								if f.Msg != nil && f.Msg.Tag == 50 && f.Msg.Type == wire.Rerror && held == "create" {
+									fail = fmt.Sprintf("the held Tcreate failed with %q", f.Msg.Ename)
+								}
+							}
+						}
+					}
+					x := vs.Run(nil, body, vs.Options{})
+					res.Evals++
+					res.Nontrivial++
+					res.Traces++
+					if len(x.Panics) > 0 {
+						fail = "panic: " + x.Panics[0].Value
+					} else if len(x.Fails) > 0 && fail == "" {
+						fail = "harness: " + x.Fails[0]
+					}
+					if fail != "" {
+						sig := "C05/forwarded-with-wrong-arguments/held-" + held
+						if strings.HasPrefix(fail, "harness") || strings.HasPrefix(fail, "panic") {
+							sig = "C05/args-stable/" + sigWords(fail)
+						}
+						if !seen[sig] {
+							seen[sig] = true
+							res.Findings = append(res.Findings, Finding{Sig: sig, Msg: fmt.Sprintf("%s, %d followers (%s): %s", name, k, follower, fail)})
+						}
+					}
+				}
+			}
+		}
+		res.Samples = append(res.Samples, fmt.Sprintf("held write/create/walk x followers %v x {stat, write, mixed}", ks))
+		return res
+	}}
+}
+
 func c05VisCases() []c05Vis {
 	isErr := func(t string) func(r *wire.Msg) bool {
 		return func(r *wire.Msg) bool { return r.Type == wire.Rerror && strings.Contains(r.Ename, t) }
@@ -241,6 +354,7 @@ func c05Scenarios(tier string) []Scenario {
 			}
 		}
 	}
+	out = append(out, c05ArgsStable(64, false), c05ArgsStable(64, true), c05ArgsStable(256, true))
 	P := 2
 	if tier == "thorough" {
 		P = 3
@@ -257,7 +371,7 @@ func c05Scenarios(tier string) []Scenario {
 func init() {
 	register(&Property{ID: "C05", Level: "model_checking",
 		Technique: "reference-model conformance over the full (fid state x request) product, every pair executed on the real server; visibility clause by stateless model checking under the controlled scheduler",
-		Rule:      "fid states {absent, dir unopened/open, file unopened/open with modes 0,1,2,3,OWRITE|OTRUNC,OREAD|ORCLOSE,ORDWR|OTRUNC, created file/dir, reached by in-place/partial/failed walks, after refused or failed open/create, auth fid} x requests {walk names x newfid, open 4 modes x 3 flag sets, create 8 perm classes x 4 modes, read/write with counts 0,1,L-1,L,L+1,2^31,2^32-24..2^32-1, stat/wstat/clunk/remove with implementation success/error, attach/auth with every afid kind and AuthCheck verdict} x dialect x AuthOps x msize (quick 64,256,8216; thorough also 48,1024,65560); three-valued oracle (must refuse / must forward / either); visibility pairs: all schedules with at most P preemptions. states = distinct (request kind, verdict, rule) classes exercised",
+		Rule:      "fid states {absent, dir unopened/open, file unopened/open with modes 0,1,2,3,OWRITE|OTRUNC,OREAD|ORCLOSE,ORDWR|OTRUNC, created file/dir, reached by in-place/partial/failed walks, after refused or failed open/create, auth fid} x requests {walk names x newfid, open 4 modes x 3 flag sets, create 8 perm classes x 4 modes, read/write with counts 0,1,L-1,L,L+1,2^31,2^32-24..2^32-1, stat/wstat/clunk/remove with implementation success/error, attach/auth with every afid kind and AuthCheck verdict} x dialect x AuthOps x msize (quick 64,256,8216; thorough also 48,1024,65560); three-valued oracle (must refuse / must forward / either); arguments of a request held by the implementation while 1..8*msize/11 further requests arrive one per segment; visibility pairs: all schedules with at most P preemptions. states = distinct (request kind, verdict, rule) classes exercised",
 		Assumptions: []string{"the reference model is a correct reading of the rules the property lists; corners it does not settle are accepted both ways", "product pairs run on the default schedule"},
 		Scenarios:   c05Scenarios, QuickS: 100, ThoroughS: 900})
 }
